@@ -1107,7 +1107,8 @@ StylesheetHandler::checkForOrAddVariableName(
 
         assert(theCurrent == theEnd);
 
-        m_inScopeVariableNamesStack.back().insert(theVariableName);
+        // The name is added to the enclosing scope in endElement():
+        // the binding is not visible in the content of its own element.
     }
 }
 
@@ -1507,6 +1508,14 @@ StylesheetHandler::endElement(const XMLCh* const    /* name */)
         {
             // Top-level param or variable
             m_inTemplate = false;
+        }
+        else if (inExtensionElement() == false)
+        {
+            // The binding is visible for the following siblings
+            // and their descendants...
+            assert(m_inScopeVariableNamesStack.empty() == false);
+
+            m_inScopeVariableNamesStack.back().insert(m_lastPopped->getNameAttribute());
         }
     }
     else if (StylesheetConstructionContext::ELEMNAME_ATTRIBUTE_SET == tok)
